@@ -169,6 +169,9 @@ func loadKnown() {
 	p := os.Getenv("VERIF_KNOWN")
 	if p == "" {
 		p = "/verif/known-findings.json"
+		if r := os.Getenv("VERIF_ROOT"); r != "" {
+			p = r + "/known-findings.json"
+		}
 	}
 	b, err := os.ReadFile(p)
 	if err != nil {
